@@ -37,6 +37,7 @@ ASSUMPTIONS = [
 ]
 MIN_NONTRIVIAL = {"quick": 200, "thorough": 5000}
 TIMEOUT = {"quick": 1500, "thorough": 10800}
+AMBIENT = {"tests": ['test_frclim.py', 'test_ntfl_rbdamping.py'], "monitors": ['ntfl'], "quick": False}
 NSLICE = {"quick": 16, "thorough": 16}
 NPAIR = {"quick": 640, "thorough": 8000}
 AMP_LIMIT = 1e6
